@@ -1,6 +1,6 @@
 #!/bin/bash
 # usage: seedtest.sh <dir with patch.diff> <ID> [tier]  -- apply a seeded change to /repo, run the check, undo it straight afterwards
-P=$1; ID=$2; TIER=${3:-quick}
+P=$(realpath $1); ID=$2; TIER=${3:-quick}
 cd /repo || exit 9
 if ! git diff --quiet; then echo "/repo has uncommitted changes; refusing"; exit 9; fi
 git apply "$P/patch.diff" || { echo "PATCH DOES NOT APPLY"; exit 9; }
